@@ -394,6 +394,16 @@ func ruleHiddenLoopVariablesScope(c *Ctx) {
 			if lastHidden == nil {
 				okc, why = false, "no hidden variable registered"
 			}
+			// the loop's own variables come into being after the header: a name in the header that equals a
+			// loop variable is the variable of the enclosing scope (C03: a closure written there captures it)
+			for _, r := range callsTo(fn, reg) {
+				if nm, ok := constStr(r.Call.Args[1]); ok && strings.HasPrefix(nm, "(for ") {
+					continue
+				}
+				if !g.Dominates(s, r) {
+					okc, why = false, "a loop variable is registered before the header expressions are compiled"
+				}
+			}
 			var entry ssa.Instruction
 			allInstrs(fn, func(in ssa.Instruction) {
 				sc := staticCallee(in)
